@@ -3,6 +3,8 @@
 use serde_json::{json, Value};
 use std::io::{BufRead, Write};
 
+pub mod instr;
+
 pub fn hex(b: &[u8]) -> String {
     let mut s = String::with_capacity(b.len() * 2);
     for x in b {
